@@ -69,6 +69,11 @@ CHECKS = {
              "real struct definitions (future fields included), the real Copy() is called, both heap graphs and the digests after real mutations are logged; TraceCopy decides Iso, "
              "Disjoint and the frame condition.",
         ref="DESIGN.md 5/C17", technique="TLA+ heap model (CopyHeap/MC_Copy) + TLC trace validation of real heap graphs and mutation frames (TraceCopy)"),
+    "C20": dict(
+        text="Signature.tla defines Allowed(tree, location) (innermost known call whose parentheses contain the cursor, slot index counting commas, clamping to the variadic "
+             "parameter, none for surplus arguments) and a transcription Impl of SignatureAtPos; MC_Sig checks Impl in Allowed on every (tree, location) of the universe and prints the "
+             "cases; the harness renders them in 4 layouts and TraceSig compares the real answers with Allowed.",
+        ref="DESIGN.md 5/C20", technique="TLC exhaustive model checking of Signature.tla (MC_Sig) + replay of TLC-generated cases + TLC trace validation (TraceSig)"),
 }
 
 NOT_YET = {
